@@ -84,7 +84,8 @@ def run(tier, seed):
     chk.sample({"input": "00ff", "impl_enc": impl_enc(b"\x00\xff") if True else None})
     # random strings incl. sizes around block boundaries and several KiB
     nrand = 600 if tier == "quick" else 6000
-    sizes = [3, 4, 5, 31, 32, 33, 255, 256, 257, 1023, 1024, 1025, 3071, 3072, 3073, 4095, 4096, 4097, 4098, 4099, 8191, 8192, 8193, 12287, 12288, 12289]
+    sizes = [3, 4, 5, 31, 32, 33, 255, 256, 257, 1023, 1024, 1025, 3071, 3072, 3073, 4095, 4096, 4097, 4098, 4099, 8191, 8192, 8193, 12287, 12288, 12289,
+             16383, 16384, 16385, 24577, 49153, 65535, 65536, 65537] + ([100001, 262145, 1048577] if tier == "thorough" else [])
     for i in range(nrand):
         n = sizes[i % len(sizes)] if i < 3 * len(sizes) else rng.choice([rng.randrange(3, 64), rng.randrange(64, 2048), rng.randrange(2048, 12300)])
         b = rng.randbytes(n)
@@ -93,6 +94,29 @@ def run(tier, seed):
         one(b)
         if i < 3:
             chk.sample({"input_len": n, "impl_enc_prefix": impl_enc(b)[:24]})
+    # the id of a credential is compared with THE encoding of its raw id (anchor sites in verify_*): every other spelling that merely
+    # decodes to the same bytes is refused
+    from harness import impl, authcat, authsim, regsim, regrun
+    for cid in (b"\xfb\xff\xfe", b"\xfb\xff\xfe\x01", b"\xfb\xff\xfe\x01\x02", rng.randbytes(16), rng.randbytes(32)):
+        good = authsim.b64u(cid)
+        twin = good[:-1] + "ABCDEFGHIJKLMNOPQRSTUVWXYZabcdefghijklmnopqrstuvwxyz0123456789-_"[("ABCDEFGHIJKLMNOPQRSTUVWXYZabcdefghijklmnopqrstuvwxyz0123456789-_".index(good[-1])) ^ 1]
+        spell = {"padded-1": good + "=", "padded-2": good + "==", "dot-inserted": good[:2] + "." + good[2:], "newline-appended": good + "\n",
+                 "standard-alphabet": good.replace("-", "+").replace("_", "/"), "last-char-spare-bits": twin, "space-prefixed": " " + good}
+        for nm, idt in spell.items():
+            if idt == good or (nm == "last-char-spare-bits" and len(cid) % 3 == 0):
+                continue
+            sc = authcat.Scn("ES256-P256"); sc.cred_id = cid; sc.id_text = idt
+            pol, a = sc.build()
+            il = impl.verify_auth(pol, a.as_record())
+            rs = regsim.RScn("none", "ES256-P256"); rs.cred_id = cid; rs.id_text = idt
+            pd, reg = regsim.build(rs)
+            il2 = impl.verify_reg(regrun.policy_of(pd), reg.as_record())
+            chk.evals += 2
+            for cer, o in (("authentication", il), ("registration", il2)):
+                if o.startswith("OK"):
+                    chk.violation(f"{cer}: id {idt!r} accepted although it is not the base64url encoding {good!r} of the raw id", f"id-noncanonical {cer} {nm}",
+                                  {"op": "id", "ceremony": cer, "raw_id": cid.hex(), "id": idt, "canonical": good, "impl": o[:120]})
+            chk.seen(("id", nm, len(cid) % 3))
     # malformed / arbitrary text into the decoder: model is exact, so outcomes must agree
     nmal = 3000 if tier == "quick" else 40000
     pool = "ABCDwxyz0189-_+/=== \n!.é€"
